@@ -261,6 +261,12 @@ int KSI_TlvElement_serialize(const KSI_TlvElement *element, unsigned char *buf, 
 	}
 
 
+	/* The payload must fit into the 16-bit length field. */
+	if (dat_len > 0xffff) {
+		res = KSI_BUFFER_OVERFLOW;
+		goto cleanup;
+	}
+
 	/* Calculate the header length. */
 	hdr_len = HDR_LEN(element->ftlv.tag, dat_len);
 
